@@ -1,6 +1,6 @@
 (* curies.mapping_service: the triples oracle (_expand_pair_all / triples) and Accept-header negotiation
    (_handle_part / parse_header / handle_header).  rdflib's SPARQL engine and the web stacks are runtime. *)
-From Curies.model Require Export Query Spec CheckQ.
+From Curies.model Require Export Query Spec CheckQ Optimize.
 
 (* ---- equivalent URIs ---- *)
 Section Oracle.
@@ -147,18 +147,21 @@ Definition spec_negotiate (h : option str) : option str :=
            per query: what converter.expand_all(converter.compress(uri)) answers on the implementation (None when compress gives None)
            -- the property is stated relative to these two methods]
    obs  = [per query: [answers with ?s bound, VALUES inside; ?s bound, VALUES after; ?o bound inside; ?o bound after] (each sorted);
-           per header: negotiated type] *)
+           per header: negotiated type; per algebra tree: the tree after the implementation's _optimize_node] *)
 Record scase := { sc_recs : list record; sc_invalid : str; sc_queries : list (str * bool); sc_headers : list (option str);
-                  sc_renderings : list (option (list str)) }.
+                  sc_renderings : list (option (list str));
+                  sc_trees : list alg }.        (* algebra trees of the queries as rdflib translates them, before _optimize_node *)
 Definition as_query_entry (v : val) : option (str * bool) :=
   match v with VList [VStr u; VInt b] => Some (u, negb (Z.eqb b 0)) | _ => None end.
 Definition decode_scase (v : val) : option scase :=
   match v with
-  | VList (rs :: VStr inv :: qs :: hs :: rd :: _) =>     (* a sixth element (how the harness staged the requests) is not the model's business *)
-      match as_records rs, as_list_of as_query_entry qs, as_list_of (as_opt as_str) hs, as_list_of (as_opt as_strs) rd with
-      | Some rs', Some qs', Some hs', Some rd' =>
-          Some {| sc_recs := rs'; sc_invalid := inv; sc_queries := qs'; sc_headers := hs'; sc_renderings := rd' |}
-      | _, _, _, _ => None end
+  | VList (rs :: VStr inv :: qs :: hs :: rd :: tail) =>
+      (* tail: a sixth element (how the harness staged the requests) is not the model's business; a seventh holds the algebra trees *)
+      let trees := match tail with _ :: ts :: _ => as_list_of as_alg ts | _ => Some [] end in
+      match as_records rs, as_list_of as_query_entry qs, as_list_of (as_opt as_str) hs, as_list_of (as_opt as_strs) rd, trees with
+      | Some rs', Some qs', Some hs', Some rd', Some ts' =>
+          Some {| sc_recs := rs'; sc_invalid := inv; sc_queries := qs'; sc_headers := hs'; sc_renderings := rd'; sc_trees := ts' |}
+      | _, _, _, _, _ => None end
   | _ => None
   end.
 Definition inv_of (k : scase) : chr -> bool := fun c => existsb (N.eqb c) (sc_invalid k).
@@ -175,11 +178,16 @@ Definition model_sobs (k : scase) : val :=
   VList [VList (map (fun qr : (str * bool) * option (list str) =>
                        let a := vsorted (rel_answer (inv_of k) (snd (fst qr)) (snd qr)) in VList [a; a; a; a])
                     (combine (sc_queries k) (sc_renderings k)));
-         VList (map (fun h => vopt VStr (negotiate h)) (sc_headers k))].
+         VList (map (fun h => vopt VStr (negotiate h)) (sc_headers k));
+         VList (map (fun t => valg (opt t)) (sc_trees k))].
 Definition P_C18 (k : scase) (o : val) : bool :=
   match o with
-  | VList [VList qa; VList ha] =>
+  | VList [VList qa; VList ha; VList ta] =>
       Nat.eqb (length qa) (length (sc_queries k)) && Nat.eqb (length ha) (length (sc_headers k)) &&
+      (* every algebra tree after the real _optimize_node is the tree the model computes (C18_opt_* characterise it:
+         VALUES first in every Join, nothing else moved, idempotent) *)
+      Nat.eqb (length ta) (length (sc_trees k)) &&
+      forallb (fun ta : alg * val => val_eqb (snd ta) (valg (opt (fst ta)))) (combine (sc_trees k) ta) &&
       forallb (fun qa : ((str * bool) * option (list str)) * val => let '(qr, a) := qa in
                  let expected := vsorted (rel_answer (inv_of k) (snd (fst qr)) (snd qr)) in
                  val_eqb a (VList [expected; expected; expected; expected])) (combine (combine (sc_queries k) (sc_renderings k)) qa)
